@@ -357,12 +357,16 @@ theorem safe_slot_step (W : World) (_g : GoodParams W.P) (f : Nat) (ih : SafeAt 
       · exact safe_bindR _ _ (ih.list _ _ _) (fun _ _ => rfl)
       · exact ih.list _ _ _
     · split
-      · rfl
+      · split
+        · exact safe_bindR _ _ (ih.list _ _ _) (fun _ _ => rfl)
+        · exact ih.list _ _ _
       · split
         · exact ih.list _ _ _
         · rfl
   · split
-    · rfl
+    · split
+      · exact safe_bindR _ _ (ih.list _ _ _) (fun _ _ => rfl)
+      · exact ih.list _ _ _
     · split
       · exact ih.list _ _ _
       · rfl
